@@ -1,8 +1,13 @@
 (* Arithmetic of raw tails (term id in the high word, offset in the low word) as the thread-level
    invariants need it: a raw tail of generation g (= term count at which its term is active) and
    offset o, decoding, fetch-add without carry, rotation values, injectivity of term ids. *)
-Require Import V.Base.MachineInt V.Generated.GenConsts V.Model.LogBase V.Model.Descriptor V.Proofs.DescriptorProofs
-               V.Model.Sched V.Model.AppenderThreads.
+Require Import V.Base.MachineInt.
+Require Import V.Generated.GenConsts.
+Require Import V.Model.LogBase.
+Require Import V.Model.Descriptor.
+Require Import V.Proofs.DescriptorProofs.
+Require Import V.Model.Sched.
+Require Import V.Model.AppenderThreads.
 From Coq Require Import ZifyBool.
 Open Scope Z_scope.
 
